@@ -1,5 +1,12 @@
 """C01 case generator: named-dimension addressing.
-   (1 1 shape data req probes write)  and  (1 2 shape datalen)"""
+   (1 1 shape data req probes write)  access through every form (write = () | ((idx) v))
+   (1 2 shape datalen)                Tensor::from / try_from over data [0, datalen)
+   (1 3 shape req probes)             Tensor::from_fn (producer fold(acc*7+i+1) from 1000), then
+                                      access by req
+   Exhaustive: D = 0..4 with lengths 1..3 (1..2 for D = 4 in the quick tier), every ordering,
+   every probe over {0..len}^D; D = 1..3 every single-name substitution by a foreign / repeated
+   name; D = 1 every foreign name 0..12; huge coordinates (2^63, 2^63+1, usize::MAX / stride
+   (+1), 2^64 / stride ...) in every position of every ordering for D = 1..4."""
 import itertools, random
 from tools.vlib import sx, MAXU
 
@@ -113,6 +120,67 @@ def gen(tier, rng):
                         if j != k:
                             bad = list(base); bad[k] = base[j]
                             yield access_case(shape, bad, [[0] * D], None)
+    # --- D = 1: there is one ordering only, so ANY other name must be rejected (names sharing a
+    #     prefix or an allocation with the tensor's own name included)
+    for own in (0, 1, 10, 11):
+        for other in list(range(0, 13)) + [100, 110]:
+            for ln in (1, 2, 3):
+                shape = [[own, ln]]
+                probes = [[i] for i in range(ln + 1)] + [[MAXU]]
+                yield access_case(shape, [other], probes, None)
+                yield access_case(shape, [other], [[0]], [[0], -3])
+                yield sx([1, 3, shape, [other], probes])
+    # --- huge coordinates in every position: a product n * stride that overflows must not wrap
+    #     onto another element (release) or panic inside a fallible accessor (debug)
+    for D in range(1, 5):
+        lens_choices = list(itertools.product((1, 2, 3), repeat=D)) if D <= 3 else \
+            [(2, 2, 2, 2), (1, 2, 3, 2), (3, 1, 2, 2), (2, 3, 1, 4)]
+        for lens in lens_choices:
+            shape = [[d, l] for d, l in enumerate(lens)]
+            strides = [elements(shape[d + 1:]) for d in range(D)]
+            perms = list(itertools.permutations(range(D)))
+            if quick and len(perms) > 6:
+                perms = rng.sample(perms, 6)
+            for perm in perms:
+                req = [shape[p][0] for p in perm]
+                lens_req = [shape[p][1] for p in perm]
+                probes = []
+                for k in range(D):
+                    st = strides[perm[k]]
+                    huge = {2 ** 63, 2 ** 63 + 1, 2 ** 63 - 1, 2 ** 62, MAXU // st, MAXU // st + 1,
+                            2 ** 64 // st, 2 ** 64 // st + 1, 2 ** 32, MAXU - 1, MAXU,
+                            (2 ** 64 // st) * 1 + lens_req[k] - 1, 2 ** 64 - st, 2 ** 64 - st + 1}
+                    for h in sorted(v for v in huge if 0 <= v <= MAXU):
+                        for base in ([0] * D, [l - 1 for l in lens_req], [rng.randrange(l) for l in lens_req]):
+                            idx = list(base); idx[k] = h
+                            probes.append(idx)
+                yield access_case(shape, req, probes, None)
+                w = rng.choice(probes)
+                yield access_case(shape, req, [w], [w, -5])
+    # --- Tensor::from_fn: every shape with lengths 0..3 (a zero length or a repeated name must
+    #     panic), every ordering, every probe
+    for D in range(0, 4):
+        for lens in itertools.product(range(0, 4), repeat=D):
+            for names in ([list(range(D))] + ([[0] * D] if D > 1 else []) + ([[0, 1, 0][:D]] if D > 2 else [])):
+                shape = [[n, l] for n, l in zip(names, lens)]
+                bad = 0 in lens or len(set(names)) < D
+                perms = [tuple(range(D))] if bad else list(itertools.permutations(range(D)))
+                for perm in perms:
+                    req = [names[p] for p in perm]
+                    lens_req = [lens[p] for p in perm]
+                    yield sx([1, 3, shape, req, all_probes(lens_req)])
+                if D and not bad:
+                    yield sx([1, 3, shape, [FOREIGN] + names[1:], [[0] * D]])
+    for _ in range(300 if quick else 3000):
+        D = rng.randrange(1, 7)
+        names = rng.sample(range(0, 12), D)
+        lens = [rng.choice([1, 2, 3, 4, 5]) for _ in range(D)]
+        while elements([[0, l] for l in lens]) > 2000:
+            lens[rng.randrange(D)] = 1
+        perm = list(range(D)); rng.shuffle(perm)
+        lens_req = [lens[p] for p in perm]
+        probes = [[rng.randrange(l + 1) for l in lens_req] for _ in range(10)]
+        yield sx([1, 3, [[n, l] for n, l in zip(names, lens)], [names[p] for p in perm], probes])
     # --- constructors: valid / duplicate names / zero lengths / wrong data length
     for D in range(0, 5):
         for lens in itertools.product(range(0, 4), repeat=D):
@@ -130,4 +198,14 @@ def nontrivial(case, model_out):
     constructor / ordering"""
     if case.startswith("(1 1"):
         return model_out.startswith("(0 (0") and "((" in model_out
+    if case.startswith("(1 3"):
+        return model_out.startswith("(0 ") and "((" in model_out
     return True
+
+
+def distribution(lines):
+    ops = {}
+    for c in lines:
+        k = c.split()[1]
+        ops[k] = ops.get(k, 0) + 1
+    return {"cases_per_op": ops, "cases_with_coordinate_ge_2^62": sum(1 for c in lines if any(len(t.strip("()")) >= 19 for t in c.split()))}
